@@ -50,7 +50,7 @@ func stateS(h [8]uint32, c0, c1 uint32, size byte, block []byte, offset byte) []
 func msgLen(r *hx.Rand, bs int) int {
 	switch r.Intn(10) {
 	case 0:
-		return r.Intn(4)
+		return r.PickInt(0, 0, 1, 2, 3)
 	case 1, 2, 3, 4:
 		return max(0, r.Range(1, 6)*bs+r.Range(-2, 2))
 	case 5:
@@ -140,8 +140,12 @@ func keyLen(r *hx.Rand, max int, g *hx.Gen) int {
 	}
 }
 
-func genHist(g *hx.Gen) {
+// forceKL >= 0 makes the next history use exactly that key length (every length 0..max is covered in every run)
+var forceKL = -1
+
+func genHist(g *hx.Gen, cv *cover) {
 	r := g.R
+	var feats []string
 	alg := r.PickStr("b", "s")
 	bs, maxSize, paths := 128, 64, pathsB
 	if alg == "s" {
@@ -149,9 +153,13 @@ func genHist(g *hx.Gen) {
 	}
 	path := hx.Pick(r, paths)
 	g.Stat("path." + alg + "." + path)
+	cv.hit("dispatch."+alg, path)
 	var ctor string
 	size := maxSize
 	kl := keyLen(r, maxSize, g)
+	if forceKL >= 0 {
+		kl = forceKL % (maxSize + 1)
+	}
 	init := "-"
 	if alg == "b" {
 		switch r.Intn(8) {
@@ -191,13 +199,15 @@ func genHist(g *hx.Gen) {
 	key := r.Bytes(kl)
 	n := msgLen(r, bs)
 	// start from an unmarshaled state (unkeyed hashes only)
-	if kl == 0 && r.Chance(1, 4) {
+	if (kl == 0 && r.Chance(1, 4)) || (kl > 0 && r.Chance(1, 8)) { // also into a keyed receiver: the key survives, Reset re-keys
+		feats = append(feats, "unmarshal-start")
 		block := r.Bytes(bs)
 		off := byte(r.Intn(bs + 1))
 		if r.Chance(1, 3) {
 			off = byte(r.PickInt(0, 1, bs-1, bs))
 		}
 		sz := byte(r.Range(1, maxSize))
+		cv.hit("digest-size."+alg, fmt.Sprint(sz))
 		switch r.Intn(3) {
 		case 0: // counter just below the carry into c[1]
 			g.Stat("init.carry")
@@ -257,12 +267,64 @@ func genHist(g *hx.Gen) {
 	ops := chunking(r, n, bs, g)
 	if kl > 0 {
 		g.Stat("keyed")
+		feats = append(feats, "keyed")
+		if kl == maxSize {
+			feats = append(feats, "key-max")
+		}
+	}
+	if size != maxSize {
+		feats = append(feats, "short-digest")
+	}
+	if strings.HasPrefix(ctor, "reg") {
+		feats = append(feats, "registered")
+	}
+	if n > 0 && n%bs == 0 {
+		feats = append(feats, "exact-blocks")
+	}
+	if n == 0 {
+		feats = append(feats, "empty-msg")
+	}
+	joined := "," + strings.Join(ops, ",") + ","
+	if strings.Contains(joined, ",r,") {
+		feats = append(feats, "reset")
+	}
+	if strings.Count(joined, ",s,") > 1 {
+		feats = append(feats, "multi-sum")
+	}
+	if strings.Contains(joined, ",w0,") {
+		feats = append(feats, "zero-write")
+	}
+	if strings.Contains(joined, ",z,") {
+		feats = append(feats, "size-probe")
+	}
+	if path == "generic" {
+		feats = append(feats, "generic-path")
+	}
+	cv.pairs(feats...)
+	cv.hit("ctor."+alg, ctor)
+	if size >= 1 && size <= maxSize {
+		cv.hit("digest-size."+alg, fmt.Sprint(size))
+	}
+	if kl <= maxSize {
+		cv.hit("key-len."+alg, fmt.Sprint(kl))
 	}
 	g.Emit("hist alg=%s path=%s ctor=%s size=%d key=%s init=%s ops=%s data=%s", alg, path, ctor, size, hx.Hex(key), init, strings.Join(ops, ","), hx.Hex(r.Bytes(n)))
 }
 
 func gen(g *hx.Gen) {
-	n := g.Count(4000, 150000)
+	cv := newCover(g)
+	cv.declare("dispatch.b", 4)
+	cv.declare("dispatch.s", 4)
+	cv.declare("ctor.b", 7)
+	cv.declare("ctor.s", 3)
+	cv.declare("digest-size.b", 64)
+	cv.declare("digest-size.s", 32)
+	cv.declare("key-len.b", 65)
+	cv.declare("key-len.s", 33)
+	defer cv.report()
+	g.Emit("consts alg=b path=generic")
+	g.Emit("consts alg=s path=generic")
+	n := g.Count(3000, 150000)
 	for i := 0; i < n; i++ {
 		if g.R.Chance(1, 8) {
 			alg := g.R.PickStr("b", "b", "b", "s")
@@ -274,7 +336,11 @@ func gen(g *hx.Gen) {
 			g.Emit("sum alg=%s path=%s size=%d data=%s", alg, hx.Pick(g.R, paths), size, hx.Hex(g.R.Bytes(msgLen(g.R, bs))))
 			continue
 		}
-		genHist(g)
+		forceKL = -1
+		if i < 140 {
+			forceKL = i / 2
+		}
+		genHist(g, cv)
 	}
 }
 
@@ -287,6 +353,11 @@ func exec(line string) string {
 	defer setPath(alg, "auto")
 	var m mutLog
 	switch o.Cmd {
+	case "consts":
+		if alg == "b" {
+			return fmt.Sprintf("%d,%d,%d,%d,%d mut=-", blake2b.BlockSize, blake2b.Size, blake2b.Size384, blake2b.Size256, blake2b.OutputLengthUnknown)
+		}
+		return fmt.Sprintf("%d,%d,%d,%d mut=-", blake2s.BlockSize, blake2s.Size, blake2s.Size128, blake2s.OutputLengthUnknown)
 	case "sum":
 		var res string
 		m.input("data", o.Hex("data"), func(data []byte) {
